@@ -18,6 +18,22 @@ Corollary C06_cache_hit_is_transparent : forall (O : Type) (trace : fv -> O) a b
   key_eq true a b = true -> trace a = trace b.
 Proof. intros O trace a b H. now rewrite (C06_typed_keys_separate a b H). Qed.
 
+(* the cache as a state machine (lookup by key equality, insert on a miss): for EVERY history of calls, starting from
+   the empty cache, each call returns exactly what tracing its own arguments afresh returns - earlier calls do not matter *)
+Theorem C06_every_history_is_transparent : forall (O : Type) (trace : fv -> O) (history : list fv),
+  run O trace true [] history = map trace history.
+Proof. intros O trace h. apply cache_transparent_for_every_history. intros k o []. Qed.
+Print Assumptions C06_every_history_is_transparent.
+
+(* ... while with the untyped comparison of the pinned tree a history exists in which the second call gets the first one's result *)
+Theorem C06_untyped_history_refuted : exists (history : list fv),
+  run fv (fun a => a) false [] history <> map (fun a => a) history.
+Proof.
+  exists [FDict [("c"%string, FNum {| nt := TInt; integral := true; code := 2 |})];
+          FDict [("c"%string, FNum {| nt := TFloat; integral := true; code := 2 |})]].
+  vm_compute. discriminate.
+Qed.
+
 (* the source compares numbers together with their type *)
 Theorem C06_source_uses_typed_keys : gen_freeze_numbers_typed = true.
 Proof. reflexivity. Qed.
